@@ -1781,6 +1781,9 @@ int jdf_assign_ldef_index(jdf_function_entry_t *f)
                         DO_DEBUG_VERBOSE(2, ({ fprintf(stderr, "  Flow for %s, dep %d, calltrue: ldef %s is at %d\n", fl->varname, depi, ld->alias, ld->ldef_index); }) );
                     }
                 }
+                /* Both branches reuse the same slots: remember what the true branch needs */
+                if( nb_ldef_for_calls > f->nb_max_local_def )
+                    f->nb_max_local_def = nb_ldef_for_calls;
                 nb_ldef_for_calls = nb_ldef_for_deps;
                 for(ld = dep->guard->callfalse->local_defs; NULL != ld; ld = ld->next) {
                     assert(NULL != ld->alias);
